@@ -800,6 +800,25 @@ func TestVerifC13(t *testing.T) {
 		t.Fatal(err)
 	}
 	base := 20000 + (os.Getpid()%150)*250
+	// other test processes run on this machine: take a block whose first ports are free right now
+	portsFree := func(b int) bool {
+		for o := 0; o < 20; o++ {
+			l, err := net.Listen("tcp", fmt.Sprintf(":%d", b+o))
+			if err != nil {
+				return false
+			}
+			l.Close()
+			pc, err := net.ListenPacket("udp", fmt.Sprintf(":%d", b+o))
+			if err != nil {
+				return false
+			}
+			pc.Close()
+		}
+		return true
+	}
+	for try := 1; try <= 30 && !portsFree(base); try++ {
+		base = 20000 + ((os.Getpid()+37*try)%150)*250
+	}
 	mu := &vC13Mut{port: base + 40, dir: dir}
 	crt, key := filepath.Join(dir, "server.crt"), filepath.Join(dir, "server.key")
 	var tlsLines strings.Builder
